@@ -83,3 +83,42 @@ func Sum(msg []byte) [32]byte {
 
 // Tj returns T_j <<< (j mod 32), the value the round j uses.
 func Tj(j int) uint32 { return rotl(tj(j), uint(j)) }
+
+// Stream is an incremental form of the same reference (padding by explicit
+// bit-length arithmetic in 64 bits), for messages too long to hold in memory.
+type Stream struct {
+	v     [8]uint32
+	buf   []byte
+	total uint64
+}
+
+func NewStream() *Stream { return &Stream{v: IV} }
+
+func (s *Stream) Write(p []byte) {
+	s.total += uint64(len(p))
+	s.buf = append(s.buf, p...)
+	for len(s.buf) >= 64 {
+		s.v = cf(s.v, s.buf[:64])
+		s.buf = s.buf[64:]
+	}
+}
+
+func (s *Stream) Sum() [32]byte {
+	m := append([]byte{}, s.buf...)
+	m = append(m, 0x80)
+	for len(m)%64 != 56 {
+		m = append(m, 0)
+	}
+	var lb [8]byte
+	binary.BigEndian.PutUint64(lb[:], s.total*8)
+	m = append(m, lb[:]...)
+	v := s.v
+	for i := 0; i < len(m); i += 64 {
+		v = cf(v, m[i:i+64])
+	}
+	var out [32]byte
+	for i := 0; i < 8; i++ {
+		binary.BigEndian.PutUint32(out[4*i:], v[i])
+	}
+	return out
+}
